@@ -57,7 +57,7 @@ def step (s : DState) (line : String) : DState × String :=
     else if op.startsWith "M." || op.startsWith "F." then
       (s, (msgOps t).getD "bad-op")
     else if op.startsWith "G." then
-      (s, (admissionOps t).getD "bad-op")
+      (s, ((admissionOps t).orElse fun _ => admissionLoopOps t).getD "bad-op")
     else if op.startsWith "H." then
       (s, (handsOps t).getD "bad-op")
     else if op.startsWith "N." then
